@@ -37,6 +37,9 @@ func (v *FnV) beforeCall(st *State, ci *callInfo, call *ast.CallExpr) {
 			continue
 		}
 		sc := &Scope{v: v, vars: map[string]Value{}, pkg: v.fr().pkg, pos: call.Pos(), old: v.entry, oldVars: v.entryVars()}
+		for i, av := range ci.args {
+			sc.vars[fmt.Sprintf("arg%d", i)] = av // the arguments of the call about to be made
+		}
 		s2 := st.fork()
 		val, err := v.spec(s2, e, sc)
 		if err != nil {
